@@ -634,6 +634,7 @@ fn run_class<T: Payload>(p: &Program, s: &'static Sched) -> RunResult {
     let mut handles: Vec<(Sender<T>, Receiver<T>)> = (1..n).map(|_| (s0.clone(), r0.clone())).collect();
     handles.insert(0, (s0, r0));
     let mut joins = vec![];
+    let flav = p.flav;
     for (me, (sx, rx)) in handles.into_iter().enumerate() {
         let ops = p.threads[me].clone();
         let j = std::thread::Builder::new()
@@ -642,8 +643,8 @@ fn run_class<T: Payload>(p: &Program, s: &'static Sched) -> RunResult {
                 s.enter(me);
                 let body = catch_unwind(AssertUnwindSafe(|| {
                     let mut w = World::<T> {
-                        sh: vec![Box::new(SH::S(sx))],
-                        rh: vec![Box::new(RH::S(rx))],
+                        sh: vec![Box::new(if flav.0 { SH::A(sx.to_async()) } else { SH::S(sx) })],
+                        rh: vec![Box::new(if flav.1 { RH::A(rx.to_async()) } else { RH::S(rx) })],
                         sf: BTreeMap::new(),
                         rf: BTreeMap::new(),
                         n_created: 0,
